@@ -149,7 +149,9 @@ func CompileAfterOn(a, priorArch *refsem.Arch, prior, final *seccomp.Policy, big
 	})
 	defer Leave(tok)
 	cp.Assemble()
-	cp.DefaultAction, cp.Syscalls = final.DefaultAction, final.Syscalls
+	if prior != final {
+		cp.DefaultAction, cp.Syscalls = final.DefaultAction, final.Syscalls
+	} // else: the very same policy is compiled again - whatever the first call wrote into the value stays
 	if priorArch != a {
 		seccomp.VerifSetArch(&cp, a.Info)
 	}
